@@ -67,7 +67,7 @@ class Ctx:
     def absorb(self, stats: dict):
         """Fold SimCluster / SimPool stats into fault and probe counters."""
         self.executions += 1
-        for k in ("dup", "crash", "ser_task", "ser_result", "readonly_handed", "xfer"):
+        for k in ("dup", "crash", "ser_task", "ser_result", "readonly_handed", "xfer", "spill"):
             if stats.get(k):
                 self.faults[k] = self.faults.get(k, 0) + stats[k]
         if stats.get("completions"):
